@@ -33,7 +33,7 @@ var verifDir = "/verif"
 // targets instrumented for every world.
 var targets = []string{
 	"github.com/gotd/td/rpc", "github.com/gotd/td/pool", "github.com/gotd/td/tdsync", "github.com/gotd/td/syncio",
-	"github.com/gotd/td/clock", "github.com/gotd/td/crypto", "github.com/gotd/td/mtproto", "github.com/gotd/td/mtproto/salts", "github.com/gotd/td/exchange",
+	"github.com/gotd/td/bin", "github.com/gotd/td/clock", "github.com/gotd/td/crypto", "github.com/gotd/td/mtproto", "github.com/gotd/td/mtproto/salts", "github.com/gotd/td/exchange",
 	"github.com/gotd/td/transport", "github.com/gotd/td/proto", "github.com/gotd/td/proto/codec",
 	"github.com/gotd/td/mtproxy", "github.com/gotd/td/mtproxy/obfuscator", "github.com/gotd/td/mtproxy/obfuscated2", "github.com/gotd/td/mtproxy/faketls",
 	"github.com/gotd/td/telegram", "github.com/gotd/td/telegram/internal/manager", "github.com/gotd/td/telegram/dcs",
